@@ -414,7 +414,15 @@ func TestC31(t *testing.T) {
 	k0, k1, k2, k3 := revcache.Key{IA: ia1, IfID: iface.ID(1)}, revcache.Key{IA: ia1, IfID: iface.ID(2)},
 		revcache.Key{IA: ia2, IfID: iface.ID(1)}, revcache.Key{IA: ia2, IfID: iface.ID(2)}
 	small := c31Cfg{keys: []revcache.Key{k0, k1, k2}, tsOffs: []int{-20, -10, 0}, ttls: []int{10, 30}, advs: []int{5, 15}}
-	phases := []c31Phase{{"3keys-5s-grid", small, 12, true}}
+	// "arbitrary timestamps and lifetimes": lifetimes below, at and above the 10 s minimum that the message-level
+	// admission check (RevInfo.Active) demands but the cache must not, a timestamp more than a second in the future
+	// (now+1.5 s), one off the 5 s grid (now-4.5 s) and old ones
+	arb := c31Cfg{tsOffs: []int{-20, -4, 0, 2}, ttls: []int{1, 5, 9, 10, 30}, advs: []int{5, 15}}
+	arb1, arb2, arb3 := arb, arb, arb
+	arb1.keys, arb2.keys, arb3.keys = []revcache.Key{k0}, []revcache.Key{k0, k2}, []revcache.Key{k0, k1, k2}
+	phases := []c31Phase{{"3keys-5s-grid", small, 12, true},
+		{"1key-arbitrary-lifetimes", arb1, 20, true},
+		{"2keys-arbitrary-lifetimes-nomerge", arb2, 20, false}}
 	if mc.Thorough() {
 		// +1: a timestamp slightly in the future; Advance(1) turns the 5 s grid into a 1 s grid
 		fine := c31Cfg{keys: []revcache.Key{k0, k1}, tsOffs: []int{-25, -20, -10, -5, 0, 1}, ttls: []int{10, 15, 30},
@@ -425,7 +433,8 @@ func TestC31(t *testing.T) {
 		phases = append(phases,
 			c31Phase{"2keys-1s-grid", fine, 20, true},
 			c31Phase{"3keys-rich-5s-grid-nomerge", rich3, 16, false},
-			c31Phase{"4keys-5s-grid-nomerge", small4, 14, false})
+			c31Phase{"4keys-5s-grid-nomerge", small4, 14, false},
+			c31Phase{"3keys-arbitrary-lifetimes-nomerge", arb3, 24, false})
 	}
 	r.Rule = "per phase: breadth-first search over all histories (up to the phase's depth bound, in practice until no new " +
 		"state appears) from the menu Insert(key, timestamp = floor(now)+off s, lifetime s) for every key x offset x " +
